@@ -77,6 +77,7 @@ type FuncContract struct {
 }
 
 type Lemma struct {
+	Trusted   bool
 	Hints     []SExpr
 	Name      string
 	Params    []SpecParam
@@ -103,6 +104,8 @@ type PkgContracts struct {
 	FieldRole map[string]string // "Type.field" → role
 	GhostVars map[string]*GhostVar
 	GhostFlds map[string]string // "Type.field" → type text
+	Guards    map[string][]string // "Type" → fields guarded by the type's mutex
+	LockField map[string]string   // "Type" → name of the mutex field
 	Text      string
 }
 
@@ -215,7 +218,7 @@ func parseContractFile(path string, importPath string) (*PkgContracts, error) {
 
 func parseContractText(text, path, importPath string) (pc *PkgContracts, err error) {
 	pc = &PkgContracts{Path: importPath, File: path, Specs: map[string]*SpecFunc{}, Lemmas: map[string]*Lemma{},
-		Funcs: map[string]*FuncContract{}, FieldRole: map[string]string{}, GhostVars: map[string]*GhostVar{}, GhostFlds: map[string]string{}, Text: text}
+		Funcs: map[string]*FuncContract{}, FieldRole: map[string]string{}, GhostVars: map[string]*GhostVar{}, GhostFlds: map[string]string{}, Guards: map[string][]string{}, LockField: map[string]string{}, Text: text}
 	// gather directives with continuation
 	type dir struct {
 		text string
@@ -342,6 +345,10 @@ func parseContractText(text, path, importPath string) (pc *PkgContracts, err err
 						}
 					}
 				}
+				if p.isID("trusted") {
+					p.next()
+					lm.Trusted = true
+				}
 				p.expect(":")
 				lm.Src = p.rest()
 				lm.Expr = p.expr()
@@ -374,6 +381,17 @@ func parseContractText(text, path, importPath string) (pc *PkgContracts, err err
 					panic(e)
 				}
 				cur.Ghost = append(cur.Ghost, parseParams(p)...)
+			case "lock":
+				// lock Type.mu guards f1, f2, ...
+				m := regexp.MustCompile(`^([A-Za-z_][A-Za-z0-9_]*)\.(\S+)\s+guards\s+(.*)$`).FindStringSubmatch(rest)
+				if m == nil {
+					panic(fmt.Errorf("lock Type.field guards f1, f2, …"))
+				}
+				pc.LockField[m[1]] = m[2]
+				for _, f := range strings.Split(m[3], ",") {
+					pc.Guards[m[1]] = append(pc.Guards[m[1]], strings.TrimSpace(f))
+				}
+				cur = nil
 			case "role":
 				f := strings.Fields(rest)
 				if len(f) < 2 {
